@@ -43,6 +43,32 @@ def simple_serialization(class_: type) -> type:
     return class_
 
 
+def factory_serialization(factory: Callable, **params: Any) -> Callable:
+    """A decorator to serialize a function created by a factory function.
+
+    A function defined inside another function cannot be loaded by its name.
+    The decorated function is given a to_dict() method that saves it as the
+    call of its factory, which recreates it on loading.
+
+    :param factory: The (module-level) function that returns the decorated
+        function.
+    :param params: The arguments the factory must be called with.
+    """
+    def add_to_dict(func: Callable) -> Callable:
+        def to_dict() -> Dict[str, Any]:
+            out_dict = {
+                'class': '.'.join((factory.__module__, factory.__name__))
+            }
+            for name, val in params.items():
+                out_dict[name] = serialize_value(val)
+            return out_dict
+
+        func.to_dict = to_dict
+        return func
+
+    return add_to_dict
+
+
 def serialize_value(value: Any) -> Any:
     if hasattr(value, 'to_dict'):
         return value.to_dict()
